@@ -44,6 +44,7 @@ type cfg struct {
 	EOFAtEnd   bool    `json:"device_eof_at_end"`
 	Profile    string  `json:"profile"`
 	MaxLogical int64   `json:"max_logical_size"`
+	NoQuota    bool    `json:"no_quota_layer"`
 }
 
 type openFile struct {
@@ -105,7 +106,13 @@ func newEnv(r *ev.Run, c cfg, mode string, caseIdx int, rng *rand.Rand) *env {
 	if stepped {
 		e.base.plan = &e.plan
 	}
-	e.q = pool.NewQuotaEnforcingFilePool(e.base, uint64(c.MaxFiles), uint64(c.MaxBytes))
+	if c.NoQuota {
+		// The block device backed pool on its own: its argument
+		// checks are otherwise shadowed by the quota layer.
+		e.q = e.base
+	} else {
+		e.q = pool.NewQuotaEnforcingFilePool(e.base, uint64(c.MaxFiles), uint64(c.MaxBytes))
+	}
 	e.slots = make([]*openFile, c.Slots)
 	return e
 }
@@ -208,10 +215,22 @@ func (e *env) checkSectors(of *openFile, op string) {
 	if e.isAborted() {
 		return
 	}
+	e.checkLen(of, op)
 	owned, want := e.ownedSectors(of.m.id), len(of.m.allocated)
 	if owned > want || (owned < want && !of.allocUpperOnly()) {
 		e.violate("sectors-held-differ-from-written-ranges after="+op, fmt.Sprintf("file %d holds %d sectors, the model expects %d (size %d, sector size %d)", of.m.id, owned, want, of.m.size, e.c.SS))
 	}
+}
+
+// checkLen compares Len() with the size of the model.
+func (e *env) checkLen(of *openFile, op string) {
+	if e.isAborted() {
+		return
+	}
+	if l, err := of.f.Len(); err != nil || l != of.m.size {
+		e.violate("len-differs-from-model after="+op, fmt.Sprintf("file %d: Len() = (%d, %v), model size %d", of.m.id, l, err, of.m.size))
+	}
+	e.r.Count("len_checks", 1)
 }
 
 func (of *openFile) allocUpperOnly() bool { return of.m.nUnknown > 0 || of.m.allocUncertain }
@@ -341,6 +360,7 @@ func (e *env) opNewFile(slot int, size int64, pattern holePattern, holeLimit int
 		e.slots[slot] = of
 		e.filesOpen++
 		e.bytesUsed += size
+		e.checkLen(of, "newfile")
 		if size > 0 {
 			e.verifyWindow(of, 0, min(size, 4*int64(e.c.SS)+3), "newfile")
 			e.verifyWindow(of, size-2*int64(e.c.SS)-3, size, "newfile")
@@ -358,7 +378,7 @@ func patternName(p holePattern) string {
 func (e *env) opWrite(of *openFile, off int64, p []byte) {
 	m := of.m
 	ss := int64(e.c.SS)
-	e.begin(m.id, fmt.Sprintf("write f%d off=%d len=%d", m.id, off, len(p)), []faultKind{faultDevWrite, faultDevWrite, faultHoleRead})
+	e.begin(m.id, fmt.Sprintf("write f%d off=%d len=%d", m.id, off, len(p)), []faultKind{faultDevWrite, faultDevWrite, faultHoleRead, faultHoleShortRead})
 	n, err := of.f.WriteAt(p, off)
 	fired, firedKind, afterAlloc, short := e.plan.fired, e.plan.firedKind, e.plan.firedAfterOpAl, e.plan.short
 	e.end()
@@ -367,6 +387,8 @@ func (e *env) opWrite(of *openFile, off int64, p []byte) {
 	if off < 0 {
 		if n != 0 || status.Code(err) != codes.InvalidArgument {
 			e.violate("invalid-argument-not-rejected op=write", fmt.Sprintf("WriteAt at offset %d = (%d, %v)", off, n, err))
+		} else if e.c.NoQuota {
+			e.sit("invalid-argument-without-quota-layer")
 		}
 		return
 	}
@@ -396,12 +418,13 @@ func (e *env) opWrite(of *openFile, off int64, p []byte) {
 			e.violate("short-write-without-error", fmt.Sprintf("WriteAt(len %d, off %d) = (%d, nil)", len(p), off, n))
 			return
 		}
-	case isInjected(err):
+	case isInjected(err) && !fired:
+		e.violate("unexpected-error op=write code=injected-but-not-fired", err.Error())
+		return
+	case fired && status.Code(err) != codes.ResourceExhausted:
+		// The injected error, or the pool's own complaint about a
+		// short read of the hole source.
 		outcome = "fault"
-		if !fired {
-			e.violate("unexpected-error op=write code=injected-but-not-fired", err.Error())
-			return
-		}
 	case status.Code(err) == codes.ResourceExhausted:
 		outcome = "exhausted"
 		if !e.mon.opExhausted {
@@ -475,7 +498,12 @@ func (e *env) opWrite(of *openFile, off int64, p []byte) {
 func (e *env) opTruncate(of *openFile, size int64) {
 	m := of.m
 	ss := int64(e.c.SS)
-	e.begin(m.id, fmt.Sprintf("truncate f%d size=%d (was %d)", m.id, size, m.size), []faultKind{faultDevWrite, faultHoleTruncate})
+	faults := []faultKind{faultDevWrite, faultHoleTruncate, faultBaseTruncate}
+	if size > m.size {
+		// Growing performs no I/O below the base pool's file.
+		faults = []faultKind{faultBaseTruncate}
+	}
+	e.begin(m.id, fmt.Sprintf("truncate f%d size=%d (was %d)", m.id, size, m.size), faults)
 	err := of.f.Truncate(size)
 	fired, firedKind := e.plan.fired, e.plan.firedKind
 	e.end()
@@ -484,6 +512,8 @@ func (e *env) opTruncate(of *openFile, size int64) {
 	if size < 0 {
 		if status.Code(err) != codes.InvalidArgument {
 			e.violate("invalid-argument-not-rejected op=truncate", fmt.Sprintf("Truncate(%d) = %v", size, err))
+		} else if e.c.NoQuota {
+			e.sit("invalid-argument-without-quota-layer")
 		}
 		return
 	}
@@ -524,6 +554,10 @@ func (e *env) opTruncate(of *openFile, size int64) {
 			}
 			m.allocUncertain = true
 			e.sit("failed-shrink")
+		} else if size > oldSize {
+			// Nothing may have changed, and the quota reserved
+			// for the growth has to be returned (probed below).
+			e.sit("failed-grow")
 		}
 	default:
 		e.violate("unexpected-error op=truncate code="+errClass(err), fmt.Sprintf("Truncate(%d) on file %d of size %d: %v", size, m.id, oldSize, err))
@@ -545,7 +579,7 @@ func (e *env) opTruncate(of *openFile, size int64) {
 
 func (e *env) opRead(of *openFile, off int64, length int) {
 	m := of.m
-	e.begin(m.id, fmt.Sprintf("read f%d off=%d len=%d", m.id, off, length), []faultKind{faultDevRead, faultHoleRead})
+	e.begin(m.id, fmt.Sprintf("read f%d off=%d len=%d", m.id, off, length), []faultKind{faultDevRead, faultHoleRead, faultDevShortRead, faultHoleShortRead})
 	buf := e.scratch(length)
 	n, err := of.f.ReadAt(buf, off)
 	fired, firedKind := e.plan.fired, e.plan.firedKind
@@ -572,7 +606,9 @@ func (e *env) opRead(of *openFile, off int64, length int) {
 		return
 	}
 	switch {
-	case fired && isInjected(err):
+	case fired && err != nil && err != io.EOF:
+		// The injected error, or the pool's own complaint about a
+		// short read of the device or hole source.
 		e.sit("fault-" + firedKind.String())
 	case err == nil || err == io.EOF:
 		if int64(n) != want {
@@ -603,9 +639,15 @@ func (e *env) seek(of *openFile, off int64, rt filesystem.RegionType) (int64, er
 func (e *env) opSeek(of *openFile, off int64, rt filesystem.RegionType) {
 	m := of.m
 	name := map[filesystem.RegionType]string{filesystem.Data: "data", filesystem.Hole: "hole"}[rt]
-	e.logOp(fmt.Sprintf("seek f%d off=%d type=%s", m.id, off, name))
-	r, err := e.seek(of, off, rt)
+	e.begin(m.id, fmt.Sprintf("seek f%d off=%d type=%s", m.id, off, name), []faultKind{faultHoleSeek})
+	r, err := of.f.GetNextRegionOffset(off, rt)
+	fired := e.plan.fired
+	e.end()
 	e.logResult(fmt.Sprintf("%d,%s", r, errClass(err)))
+	if fired && isInjected(err) {
+		e.sit("fault-holeSeek")
+		return
+	}
 	switch {
 	case off < 0:
 		if status.Code(err) != codes.InvalidArgument {
@@ -692,7 +734,7 @@ func (e *env) opClose(slot int) {
 // probeQuota proves the number of bytes still available: a fresh file can be
 // grown to exactly that size and not one byte further.
 func (e *env) probeQuota(after string) {
-	if e.isAborted() || e.filesOpen >= e.c.MaxFiles {
+	if e.isAborted() || e.c.NoQuota || e.filesOpen >= e.c.MaxFiles {
 		return
 	}
 	rem := e.quotaRemaining()
@@ -729,7 +771,7 @@ func (e *env) finalProofs() {
 	e.logOp("final-proofs")
 	// File count.
 	var fs []filesystem.FileReadWriter
-	for i := 0; i < e.c.MaxFiles; i++ {
+	for i := 0; i < e.c.MaxFiles && !e.c.NoQuota; i++ {
 		f, err := e.q.NewFile(&monHoleSource{pattern: holePattern{zero: true}, rep: e}, 0)
 		if err != nil {
 			e.violate("quota-files-not-conserved after=all-closed", fmt.Sprintf("after closing everything only %d of %d files can be created: %v", i, e.c.MaxFiles, err))
@@ -737,7 +779,7 @@ func (e *env) finalProofs() {
 		}
 		fs = append(fs, f)
 	}
-	if len(fs) == e.c.MaxFiles {
+	if len(fs) == e.c.MaxFiles && !e.c.NoQuota {
 		if f, err := e.q.NewFile(&monHoleSource{pattern: holePattern{zero: true}, rep: e}, 0); err == nil {
 			fs = append(fs, f)
 			e.violate("quota-files-not-conserved after=all-closed direction=more-available", fmt.Sprintf("more than %d files can be created", e.c.MaxFiles))
@@ -873,19 +915,24 @@ func genCfg(rng *rand.Rand, i int) cfg {
 	}
 	switch rng.IntN(4) {
 	case 0:
-		c.FaultP = 0.03
+		c.FaultP = 0.05
 	case 1:
-		c.FaultP = 0.12
+		c.FaultP = 0.15
 	}
 	if rng.IntN(3) == 0 {
 		c.ClampP = 0.4
 	}
 	c.EOFAtEnd = rng.IntN(3) == 0
 	c.Profile = "random"
+	if i%7 == 5 {
+		c.NoQuota = true
+		c.MaxFiles = 1 << 20
+		c.MaxBytes = 1 << 60
+	}
 	if i%4 == 3 {
 		c.Profile = "fragment"
 		c.MaxFiles = max(c.MaxFiles, min(c.Slots, 4))
-		c.MaxBytes = 1 << 40
+		c.MaxBytes = max(c.MaxBytes, 1<<40)
 	}
 	return c
 }
@@ -1103,6 +1150,9 @@ func (e *env) step() {
 	case k < 97:
 		e.opClose(slot)
 	default:
+		if err := of.f.Sync(); err != nil {
+			e.violate("unexpected-error op=sync code="+errClass(err), err.Error())
+		}
 		e.verifyAll("periodic", false)
 	}
 }
@@ -1218,7 +1268,7 @@ func TestCheck(t *testing.T) {
 	r.Assume("GetNextRegionOffset may over-report data (allocation granularity) but a reported hole must only contain null bytes")
 	floors := []string{"write-fills-hole-mid-file", "shrink-into-sector-then-regrow", "allocation-split-across-fragments",
 		"exhaustion-mid-write", "failed-newfile-with-size", "failed-device-write-after-allocation", "sector-reused-by-another-file",
-		"fault-devRead", "fault-holeRead", "fault-holeTruncate", "failed-shrink", "quota-denied", "seek-hole-inside-file", "concurrent-round"}
+		"fault-devRead", "fault-holeRead", "fault-holeTruncate", "fault-devShortRead", "fault-holeShortRead", "fault-holeSeek", "fault-baseTruncate", "failed-grow", "invalid-argument-without-quota-layer", "failed-shrink", "quota-denied", "seek-hole-inside-file", "concurrent-round"}
 
 	stepped := func(i int) {
 		rng := r.Rand(1, uint64(i))
